@@ -162,7 +162,7 @@ pub fn main() -> i32 {
                 match child.try_wait() {
                     Ok(Some(st)) => break Ok(st),
                     Ok(None) => unsafe {
-                        let ts: [i64; 2] = [0, 500_000];
+                        let ts: [i64; 2] = [0, 2_000_000];
                         sc::syscall!(NANOSLEEP, ts.as_ptr(), 0);
                     },
                     Err(e) => break Err(e),
